@@ -317,19 +317,38 @@ func scenario(p params, bounds map[string]int) *mc.Scenario {
 				},
 			})
 			// 2. Delivery of due base timers (one at a time) and of the
-			// base context's deadline.
+			// base context's deadline. They may also be delivered while
+			// another thread is in mid-step (a deviation), so that the
+			// firing races with Suspend/Resume/Err/Stop for the clock's
+			// mutex - but never while an earlier delivery is still being
+			// processed (see fakeClock.busy).
 			for k := 0; k < 2; k++ {
 				k := k
 				x.AddEvent(&mc.Event{
 					Name:    fmt.Sprintf("deliver:timer#%d", k),
-					Enabled: func() bool { return len(w.clk.dueTimers()) > k },
+					Enabled: func() bool { return !w.clk.isBusy() && len(w.clk.dueTimers()) > k },
 					Fire:    func() { w.clk.deliverTimer(w.clk.dueTimers()[k]) },
 				})
 			}
 			x.AddEvent(&mc.Event{
 				Name:    "deliver:context-deadline",
-				Enabled: func() bool { return len(w.clk.dueContexts()) > 0 },
-				Fire:    func() { w.clk.dueContexts()[0].finish(context.DeadlineExceeded) },
+				Enabled: func() bool { return !w.clk.isBusy() && len(w.clk.dueContexts()) > 0 },
+				Fire:    func() { w.clk.deliverContext(w.clk.dueContexts()[0]) },
+			})
+			// Deliveries that nobody is waiting for any more (the
+			// clock's goroutine has gone): only at full quiescence.
+			x.AddEvent(&mc.Event{
+				Name: "deliver:stale", OnlyIdle: true,
+				Enabled: func() bool {
+					return w.clk.isBusy() && (len(w.clk.dueTimers()) > 0 || len(w.clk.dueContexts()) > 0)
+				},
+				Fire: func() {
+					if l := w.clk.dueTimers(); len(l) > 0 {
+						w.clk.deliverTimer(l[0])
+					} else {
+						w.clk.deliverContext(w.clk.dueContexts()[0])
+					}
+				},
 			})
 			// 3. The command starts / finishes.
 			x.AddEvent(&mc.Event{
